@@ -27,7 +27,7 @@ VARIABLE c
 Mapped(n, b, to) == [k |-> "mapped", n |-> n, base |-> b, to |-> to]
 MappedLeaves == {Mapped("PathBuf", "PathBuf", "string"), Mapped("Versioned<Uuid, Utc>", "Versioned", "string"),
                  Mapped("DateTime<Utc>", "DateTime", "string"), Mapped("UserId", "UserId", "number"),
-                 Mapped("Flag", "Flag", "boolean")}
+                 Mapped("Flag", "Flag", "boolean"), Mapped("Stamped<chrono::Utc>", "Stamped", "number")}
 LeafTypes == IF LeafMode = "mapped" THEN MappedLeaves \cup {Named}
              ELSE {L("str"), L("num"), L("bool"), L("unit"), Named}
 
